@@ -313,7 +313,11 @@ impl ParallelCacheState {
             // If it is marked as selfdestructed inside revm
             // we need to changed state to destroyed.
             if is_destructed {
+                vpoint!(CACHE, "CA_StorageRemove");
                 self.storage.remove(&address);
+                vemit!(CACHE, "CA_StorageRemove", "addr" => format!("{address:x}"), "why" => "destroy");
+                vpoint!(CACHE, "CA_Account");
+                vemit!(CACHE, "CA_Account", "addr" => format!("{address:x}"), "op" => "selfdestruct");
                 return self.get_account_mut(address).selfdestruct();
             }
 
@@ -327,7 +331,11 @@ impl ParallelCacheState {
             // is not possible because CREATE2 is introduced later.
             if is_created {
                 let info = account.info;
+                vpoint!(CACHE, "CA_StorageRemove");
                 self.storage.remove(&address);
+                vemit!(CACHE, "CA_StorageRemove", "addr" => format!("{address:x}"), "why" => "create");
+                vpoint!(CACHE, "CA_Account");
+                vemit!(CACHE, "CA_Account", "addr" => format!("{address:x}"), "op" => "created");
                 let (transition, changed_slots) =
                     self.get_account_mut(address).newly_created(info.clone(), changed_storage);
                 self.contracts.entry(info.code_hash).or_insert_with(|| info.code.clone().unwrap());
@@ -341,10 +349,16 @@ impl ParallelCacheState {
             // pre-existing empty accounts are unmarked as touched. Therefore, an account that
             // reaches the commit layer as touched, empty, and not created must be cleared.
             else if is_empty {
+                vpoint!(CACHE, "CA_StorageRemove");
                 self.storage.remove(&address);
+                vemit!(CACHE, "CA_StorageRemove", "addr" => format!("{address:x}"), "why" => "empty");
                 drop(changed_storage);
+                vpoint!(CACHE, "CA_Account");
+                vemit!(CACHE, "CA_Account", "addr" => format!("{address:x}"), "op" => "touch_empty");
                 (self.get_account_mut(address).touch_empty_eip161(), None)
             } else {
+                vpoint!(CACHE, "CA_Account");
+                vemit!(CACHE, "CA_Account", "addr" => format!("{address:x}"), "op" => "change");
                 let (transition, changed_slots) =
                     self.get_account_mut(address).change(account.info, changed_storage);
                 (Some(transition), Some(changed_slots))
@@ -353,6 +367,9 @@ impl ParallelCacheState {
         if let Some(changed_slots) = changed_slots &&
             !changed_slots.is_empty()
         {
+            vpoint!(CACHE, "CA_Slots");
+            vemit!(CACHE, "CA_Slots", "addr" => format!("{address:x}"),
+                "slots" => { let mut v: Vec<String> = changed_slots.iter().map(|(k, v)| format!("{k:x}={v:x}")).collect(); v.sort(); v });
             self.update_storage_slot(address, changed_slots);
         }
         transition
@@ -525,10 +542,19 @@ impl<'a, DB: DatabaseRef> ParallelStateView<'a, DB> {
     }
 
     fn db_basic(self, address: Address) -> Result<Option<AccountInfo>, DB::Error> {
+        vpoint!(CACHE, "CB_Lookup");
         if let Some(account) = self.cache.accounts.get(&address) {
+            vemit!(CACHE, "CB_Lookup", "addr" => format!("{address:x}"), "hit" => true,
+                "val" => crate::verif::fmt::info(account.account.as_ref()));
             return Ok(account.account.clone());
         }
+        vemit!(CACHE, "CB_Lookup", "addr" => format!("{address:x}"), "hit" => false,
+            "val" => Option::<String>::None);
+        vpoint!(CACHE, "CB_Fetch");
         let info = self.with_metrics(|| self.database.basic_ref(address))?;
+        vemit!(CACHE, "CB_Fetch", "addr" => format!("{address:x}"),
+            "val" => crate::verif::fmt::info(info.as_ref()));
+        vpoint!(CACHE, "CB_Insert");
         let account = match info {
             None => CacheAccountInfo::new(None, AccountStatus::LoadedNotExisting),
             Some(acc) if acc.is_empty() => CacheAccountInfo::new(
@@ -558,11 +584,17 @@ impl<'a, DB: DatabaseRef> ParallelStateView<'a, DB> {
     }
 
     fn db_storage(self, address: Address, index: U256) -> Result<U256, DB::Error> {
+        vpoint!(CACHE, "CS_Lookup");
         if let Some(slots) = self.cache.storage.get(&address) &&
             let Some(value) = slots.get(&index)
         {
+            vemit!(CACHE, "CS_Lookup", "addr" => format!("{address:x}"), "slot" => format!("{index:x}"),
+                "hit" => true, "val" => Some(format!("{:x}", *value.value())));
             return Ok(*value.value());
         }
+        vemit!(CACHE, "CS_Lookup", "addr" => format!("{address:x}"), "slot" => format!("{index:x}"),
+            "hit" => false, "val" => Option::<String>::None);
+        vpoint!(CACHE, "CS_Known");
         // As in revm State::storage_ref, the account is not guaranteed to be cached. In that case,
         // the backing database remains the source of truth.
         let is_storage_known =
@@ -570,11 +602,20 @@ impl<'a, DB: DatabaseRef> ParallelStateView<'a, DB> {
                 account.status.is_storage_known() || account.account.is_none()
             });
 
+        vemit!(CACHE, "CS_Known", "addr" => format!("{address:x}"), "slot" => format!("{index:x}"),
+            "known" => is_storage_known);
         let value = if is_storage_known {
             U256::ZERO
         } else {
-            self.with_metrics(|| self.database.storage_ref(address, index))?
+            vpoint!(CACHE, "CS_Fetch");
+            let fetched = self.with_metrics(|| self.database.storage_ref(address, index))?;
+            vemit!(CACHE, "CS_Fetch", "addr" => format!("{address:x}"), "slot" => format!("{index:x}"),
+                "val" => format!("{fetched:x}"));
+            fetched
         };
+        vpoint!(CACHE, "CS_Insert");
+        #[cfg(grevm_verif)]
+        let fetched_value = value;
         let value = if let Some(slots) = self.cache.storage.get(&address) {
             *slots.entry(index).or_insert(value).value()
         } else {
@@ -585,6 +626,8 @@ impl<'a, DB: DatabaseRef> ParallelStateView<'a, DB> {
                 }
             }
         };
+        vemit!(CACHE, "CS_Insert", "addr" => format!("{address:x}"), "slot" => format!("{index:x}"),
+            "offered" => format!("{fetched_value:x}"), "val" => format!("{value:x}"));
         Ok(value)
     }
 
